@@ -680,6 +680,12 @@ static void runBits(const Case &c) {
       else if (impl == "sd") bs = new cds_static::BitSequenceSDArray(arr, n);
       else if (impl == "da") bs = new cds_static::BitSequenceDArray(arr, n);
       bool reload = op.size() > 5 && op[5] == "reload";
+      string rgimg = "-";
+      if (bs && impl == "rg") {   // the image of the built object (exact model of save / BuildRank)
+        std::stringstream ss(std::ios::in | std::ios::out | std::ios::binary);
+        bs->save(ss);
+        rgimg = hex(ss.str());
+      }
       if (bs && reload) {
         std::stringstream ss(std::ios::in | std::ios::out | std::ios::binary);
         bs->save(ss);
@@ -697,8 +703,8 @@ static void runBits(const Case &c) {
       }
       for (size_t j = 1; j <= ones; j++) s1 += (j > 1 ? "," : "") + std::to_string(bs->select1(j));
       for (size_t j = 1; j <= n - ones; j++) s0 += (j > 1 ? "," : "") + std::to_string(bs->select0(j));
-      emit("BV n=%zu acc=%s r1=%s r0=%s s1=%s s0=%s cnt=%zu", n, acc.empty() ? "-" : acc.c_str(), r1.empty() ? "-" : r1.c_str(),
-           r0.empty() ? "-" : r0.c_str(), s1.empty() ? "-" : s1.c_str(), s0.empty() ? "-" : s0.c_str(), bs->countOnes());
+      emit("BV n=%zu acc=%s r1=%s r0=%s s1=%s s0=%s cnt=%zu img=%s", n, acc.empty() ? "-" : acc.c_str(), r1.empty() ? "-" : r1.c_str(),
+           r0.empty() ? "-" : r0.c_str(), s1.empty() ? "-" : s1.c_str(), s0.empty() ? "-" : s0.c_str(), bs->countOnes(), rgimg.c_str());
       delete bs; delete[] arr;
     } else if (op[0] == "wt") { // wt <impl> <comma separated symbols> [reload]
       string impl = op[1];
@@ -746,7 +752,28 @@ static void runBits(const Case &c) {
 static void runDac(const Case &c) {
   for (auto &op : c.ops) {
     g_op++;
-    if (op[0] == "dac") { // dac <log_r> <a,b,c;d;e,f> [reload]
+    if (op[0] == "dimg") { // dimg <log_r> <a,b,c;d;e,f>: the saved image and the fields it is made of
+      uint logr = (uint)atoi(op[1].c_str());
+      auto seqs = splitc(op[2], ';');
+      vector<vector<uint>> L;
+      for (auto &sq : seqs) { vector<uint> v; for (auto &x : splitc(sq)) v.push_back((uint)strtoul(x.c_str(), nullptr, 10)); L.push_back(v); }
+      size_t maxseq = 0, total = 0;
+      for (auto &v : L) { total += v.size() + 1; maxseq = std::max(maxseq, v.size()); }
+      int *list = new int[total + 1];
+      size_t ic = 0;
+      for (size_t i = 0; i < L.size(); i++) { for (uint x : L[i]) list[ic++] = (int)x; list[ic++] = -(int)(i + 1); }
+      DAC_VLS *d = new DAC_VLS(list, (uint)ic, logr, (uint)maxseq);
+      delete[] list;
+      std::stringstream ss(std::ios::in | std::ios::out | std::ios::binary);
+      d->save(ss);
+      auto joinw = [](const uint *a, size_t n) { string r; for (size_t i = 0; i < n; i++) r += (i ? "," : "") + std::to_string(a[i]); return r.empty() ? string("-") : r; };
+      cds_static::BitSequenceRG *bs = (cds_static::BitSequenceRG *)d->bS;
+      emit("DI img=%s tam=%u ll=%u nl=%u bb=%u li=%s lv=%s rl=%s bn=%zu bf=%zu bd=%s br=%s", hex(ss.str()).c_str(), d->tamCode, d->listLength,
+           d->nLevels, (uint)d->base_bits, joinw(d->levelsIndex, d->nLevels + 1).c_str(), joinw(d->levels, d->tamCode / 32 + 1).c_str(),
+           joinw(d->rankLevels, d->nLevels).c_str(), (size_t)bs->n, (size_t)bs->factor, joinw(bs->data, bs->integers).c_str(),
+           joinw(bs->Rs, bs->n / bs->s + 1).c_str());
+      delete d;
+    } else if (op[0] == "dac") { // dac <log_r> <a,b,c;d;e,f> [reload]
       uint logr = (uint)atoi(op[1].c_str());
       auto seqs = splitc(op[2], ';');
       vector<vector<uint>> L;
@@ -1139,7 +1166,7 @@ static void runCase(const Case &c) {
   else if (c.stream == "codes") runCodes(c);
   else if (c.stream == "bits") runBits(c);
   else if (c.stream == "repair") runRePair(c);
-  else if (c.stream == "dac") runDac(c);
+  else if (c.stream == "dac" || c.stream == "dacimg") runDac(c);
   else if (c.stream == "chunks") runChunks(c);
   else if (c.stream == "sweep") runSweep(c);
   else if (c.stream == "rpdac") { if (c.kind == "HASHRPDAC") runHrpdac(c); else if (c.kind == "HASHRPF") runHrpf(c); else runRpdac(c); }
